@@ -163,8 +163,52 @@ def inject(call, fault, pos, rng_seed):
     return None
 
 
-def _run(t, call, wrap, held):
+LAST_OBS = []   # [(handler routine, parameter, changed?)] of the last run_case on quantities (correspondence with c18.af.*)
+_BIND = {}
+
+
+def _bind_params(t, args, kwargs, held):
+    """(name of unyt's __array_function__ handler, {index of held operand: parameter of the handler it is bound to});
+    None for methods, custom invocations, functions without a handler, calls the signature refuses"""
+    import inspect
+
+    import unyt._array_functions as AF
+
+    if t.is_method or t._invoke is not None:
+        return None
+    h = AF._HANDLED_FUNCTIONS.get(C.resolve(t.func))
+    if h is None:
+        return None
+    try:
+        ba = inspect.signature(h).bind(*args, **kwargs)
+    except TypeError:
+        return None
+    ids = {id(H.obj): i for i, (_op, H) in enumerate(held)}
+    out = {}
+
+    def walk(x, par):
+        if id(x) in ids:
+            out[ids[id(x)]] = par
+        elif isinstance(x, (list, tuple)):
+            for y in x:
+                walk(y, par)
+        elif isinstance(x, dict):
+            for y in x.values():
+                walk(y, par)
+
+    for par, val in ba.arguments.items():
+        walk(val, par)
+    return h.__name__, out
+
+
+def _run(t, call, wrap, held, bind=False):
     args, kwargs, _objs = call.materialize(wrap)
+    _BIND["last"] = None
+    if bind:
+        try:
+            _BIND["last"] = _bind_params(t, args, kwargs, held)
+        except Exception:  # noqa: BLE001
+            pass
     snaps0 = [L.snap(H.obj, H) for _op, H in held]
     with warnings.catch_warnings():
         warnings.simplefilter("ignore")
@@ -215,12 +259,19 @@ def run_case(tid, dk, sc, seed, fault="valid", pos=None, out_mode="unyt", alt=Fa
         except Exception:  # noqa: BLE001
             pass
     held = []
+    del LAST_OBS[:]
     try:
-        exc, s0, s1 = _run(t, call, _wrap_views(UNITS, out_mode, held, fault, pos, alt), held)
+        exc, s0, s1 = _run(t, call, _wrap_views(UNITS, out_mode, held, fault, pos, alt), held, bind=True)
     except Exception as e:  # noqa: BLE001
         return "skip-wrap", []
     if len(s0) != len(b0):
         return "skip-arity", []
+    bound = _BIND.get("last")
+    if bound is not None:
+        hname, pmap = bound
+        for i, par in pmap.items():
+            dd = [k for k in L.delta(s0[i], s1[i]) if k in ("numbers", "dtype", "base", "guard", "shape")]
+            LAST_OBS.append((hname, par, bool(dd)))
     out = []
     raised = L.exc_class(exc) if exc is not None else None
     for i, (x, y) in enumerate(zip(s0, s1)):
@@ -271,6 +322,14 @@ def sweep(job):
     np.seterr(all="ignore")
     ts = C.templates()[lo:hi]
     stats, fails, cases = {}, {}, []
+    obs = {}
+
+    def note():
+        for h, par, ch in LAST_OBS:
+            e = obs.setdefault(h + "\t" + par, [0, 0])
+            e[0] += 1
+            e[1] += 1 if ch else 0
+
     rng = random.Random(f"c18cat:{sseed}:{lo}")
     for t in ts:
         for sc in t.shapes:
@@ -293,6 +352,7 @@ def sweep(job):
                     oms = ("unyt", "bare") if (t.out_form and f in ("valid", "int-out")) else ("unyt",)
                     for om in oms:
                         st, found = run_case(t.tid, dk, sc, dseed, f, p, om, alt)
+                        note()
                         k = f"{f}:{st}"
                         stats[k] = stats.get(k, 0) + 1
                         if not st.startswith("skip"):
@@ -308,6 +368,7 @@ def sweep(job):
                             continue
                         for a2 in (False, True):
                             st, found = run_case(t.tid, dk, sc, dseed, "valid", None, "unyt", a2, fz)
+                            note()
                             k = f"fused-{fz}:{st}"
                             stats[k] = stats.get(k, 0) + 1
                             if not st.startswith("skip"):
@@ -315,4 +376,4 @@ def sweep(job):
                             for key, what in found:
                                 if key not in fails:
                                     fails[key] = dict(tid=t.tid, dk=dk, sc=sc, seed=dseed, fault="valid", pos=None, om="unyt", alt=a2, what=what, fuse=fz)
-    return dict(stats=stats, fails=fails, cases=cases)
+    return dict(stats=stats, fails=fails, cases=cases, obs=obs)
